@@ -248,3 +248,59 @@ fn get_metrics(status: Option<TransformStatus>, file: &str) -> Option<Metrics> {
     }
     None
 }
+
+/// Verification-only native access to the private glue of this file (the wasm entry points take and
+/// return `JsValue`, which aborts outside a wasm host).
+/// Compiled only with `--cfg datadog_dd_native_iast_rewriter_js_verif`; `serde_json` is provided by
+/// the verification harness' mirror package.
+#[cfg(datadog_dd_native_iast_rewriter_js_verif)]
+pub mod verif_access {
+    use super::{get_metrics, Result, RewriterConfig};
+    use crate::{
+        rewriter::{print_js, rewrite_js, Config},
+        util::FileReader,
+    };
+    use std::io::Read;
+
+    /// Same conversion as `Rewriter::new`: an undecodable configuration falls back to the default one.
+    pub fn config_from_json(config_json: &str) -> Config {
+        let rewriter_config = serde_json::from_str::<RewriterConfig>(config_json);
+        rewriter_config
+            .unwrap_or(RewriterConfig::default())
+            .to_config()
+    }
+
+    /// Same glue as `Rewriter::rewrite` with a caller supplied `FileReader`, serialized to JSON
+    /// instead of `JsValue`.
+    pub fn rewrite_to_json<R: Read>(
+        config: &Config,
+        code: String,
+        file: &str,
+        file_reader: &impl FileReader<R>,
+    ) -> std::result::Result<serde_json::Value, String> {
+        rewrite_js(code, file, config, file_reader)
+            .map(|result| Result {
+                content: print_js(
+                    &result.code,
+                    &result.source_map,
+                    &result.original_source_map,
+                    config,
+                )
+                .into_owned(),
+                metrics: get_metrics(result.transform_status, file),
+                literals_result: result.literals_result,
+            })
+            .as_ref()
+            .map(|result| serde_json::to_value(result).unwrap())
+            .map_err(|e| format!("{e}"))
+    }
+
+    pub fn csi_methods_dst(config: &Config) -> Vec<String> {
+        config
+            .csi_methods
+            .methods
+            .iter()
+            .map(|csi_method| csi_method.dst.clone())
+            .collect::<Vec<String>>()
+    }
+}
